@@ -216,7 +216,12 @@ def r3_interpreters(rule, root=None):
             V.check_loop(rule, label, root)
         except A.AnchorLost as e:
             rule.lost("%s: %s" % (label, e.what))
-    # reference evaluation of the graph
+    r_reference_eval(rule, root)
+
+
+def r_reference_eval(rule, root=None):
+    """`BinaryOpcode::eval` / `UnaryOpcode::eval` - the reference meaning of every opcode, and what the
+    context's constant folding applies - compute their namesake operator on their operands in order"""
     for enum, nargs in (("BinaryOpcode", 2), ("UnaryOpcode", 1)):
         fn = A.find_fn(CTXOP, "eval", self_ty=enum, root=root)
         names = [A.binding_name(i["pat"]) for i in fn["sig"]["inputs"] if "pat" in i]
